@@ -257,7 +257,7 @@ func (x *Exec) mergeStates(a, b *State) *State {
 			return ta
 		}
 		it := MergeTerm(g, ta, tb)
-		if (it.Op == "ite" && len(it.String()) > 200) || len(it.String()) > 600 {
+		if (it.Op == "ite" && len(it.String()) > 400) || len(it.String()) > 1500 {
 			f := x.sym.Fresh("m_"+hint, ta.Sort)
 			m.pc = append(m.pc, Implies(g, Eq(f, ta)), Implies(Not(g), Eq(f, tb)))
 			return f
